@@ -423,4 +423,9 @@ def known_matches(k, v):
         return False
     if m.get("observed_equals_model") and d.get("got") != rec.get("model"):
         return False
+    if m.get("got_equals_rec_model"):
+        # the defective behaviour must be exactly the one recorded: konst's value = the hoisted-rev model's value
+        g = d.get("got") or ""
+        if not g.startswith("K:") or g.split(";S:")[0] != rec.get("model"):
+            return False
     return bool(m)
